@@ -24,32 +24,54 @@ class SolveResult:
 
 
 def check_obligation(pc: list, goal: Any, timeout_ms: int, second: bool = True, smt_dump: Optional[str] = None,
-                     cap_hint: Optional[list] = None) -> SolveResult:
+                     cap_hint: Optional[list] = None, on_model: Any = None) -> SolveResult:
+    """Discharge pc => goal.  The z3 call runs in a forked child under a hard time limit; on `sat` the
+    child evaluates on_model(model) (counterexample extraction) and ships the picklable result back."""
+    from .hard import run_hard
+
     t0 = time.time()
     s = z3.Solver()
-    s.set("timeout", timeout_ms)
     for c in pc:
         s.add(c)
     s.add(z3.Not(goal))
-    r = s.check()
-    if r == z3.unsat:
-        return SolveResult("unsat", "z3-" + z3.get_version_string(), time.time() - t0)
-    if r == z3.sat:
-        m = s.model()
-        # prefer a small model: re-solve with caps on the length atoms
-        if cap_hint:
-            for cap in (64, 1024):
-                s.push()
-                for t in cap_hint:
-                    s.add(t <= cap)
-                s.set("timeout", min(timeout_ms, 5000))
-                if s.check() == z3.sat:
-                    m = s.model()
+
+    def job() -> Any:
+        s.set("timeout", timeout_ms)
+        r = s.check()
+        if r == z3.unsat:
+            return ("unsat", None, "")
+        if r == z3.sat:
+            m = s.model()
+            if cap_hint:  # prefer a small model: re-solve with caps on the length atoms
+                for cap in (64, 1024):
+                    s.push()
+                    for t in cap_hint:
+                        s.add(t <= cap)
+                    s.set("timeout", min(timeout_ms, 5000))
+                    if s.check() == z3.sat:
+                        m = s.model()
+                        s.pop()
+                        break
                     s.pop()
-                    break
-                s.pop()
-        return SolveResult("sat", "z3-" + z3.get_version_string(), time.time() - t0, m)
-    reason = s.reason_unknown()
+            info = None
+            if on_model is not None:
+                try:
+                    info = on_model(m)
+                except Exception as e:  # pylint: disable=broad-except
+                    info = {"inputs_error": f"{type(e).__name__}: {e}"}
+            return ("sat", info, "")
+        return ("unknown", None, s.reason_unknown())
+
+    st, out = run_hard(job, timeout_ms / 1000.0 * 1.5 + 8.0)
+    backend = "z3-" + z3.get_version_string()
+    if st == "ok":
+        status, info, reason = out
+        if status == "unsat":
+            return SolveResult("unsat", backend, time.time() - t0)
+        if status == "sat":
+            return SolveResult("sat", backend, time.time() - t0, info)
+    else:
+        reason = "hard timeout" if st == "timeout" else str(out)
     if not second:
         return SolveResult("unknown", "z3", time.time() - t0, reason=reason)
     smt = s.to_smt2()
